@@ -113,13 +113,13 @@ def handle (j : Json) : Except String Json := do
       i := i + 1
     pure <| Json.mkObj [("n", Json.num (vs.length : Int)), ("bad", Json.arr bad)]
   | "est" =>
-    let shape1 ← getNat j "shape1"
+    -- one flattened kernel slice per OUTPUT channel (depthwise: channel c·dm + m ↦ k[:, :, c, m])
     let sl ← (← (← j.getObjVal? "slices").getArr?).toList.mapM fun a => do
       (← a.getArr?).toList.mapM ratOfJson
     let bias ← getRatList j "bias"
     let xmin ← getRat j "xmin"
     let xmax ← getRat j "xmax"
-    let r := analyzeAccumulator shape1 sl bias xmin xmax
+    let r := analyzeAccumulator sl bias xmin xmax
     let bounds := (sl.zip bias).map fun (ws, b) => ratToJson (chanBound ws b xmin xmax)
     pure <| Json.mkObj [("result", estToJson r), ("chan_bounds", Json.arr bounds.toArray)]
   | "populate" =>
